@@ -700,7 +700,7 @@ func (w *World) analyseAtomic(fn *ssa.Function, onStack map[*ssa.Function]bool) 
 }
 
 func checkC05(w *World, r *Report) {
-	r.Explanation = "Structural clause of C05: (A-1) validateTrx's error is tested before runTrx; (A-2) nothing reachable from validateTrx mutates a ledger item, calls an overlay mutator of a live ledger or writes controller state (exception: the stake limiter's running totals, whose update is the last validation step); (A-3) in every execution function (the four controllers' ExecuteTrx and what they call, runTrx, postRunTrx) no error exit is reachable while an effect is in force: effects are item mutators, overlay mutators, item field stores and calls of functions containing them; an effect is retracted on the callee's own error edge when the callee is itself fail-clean (computed recursively), on dead error edges of always-nil callees, and by the registered compensations (refund of the same amount, CancelSet of the object); two exceptions carry a structural side condition that is checked; (A-4) in EVMCtrler.ExecuteTrx every failure exit after the snapshot passes RevertToSnapshot(that snapshot) then Finish, the success exit passes Finish once and no revert; (A-5) the fee is added to the block only on the success branch. ExecuteSync is among the A-3 functions; A-4 also orders Finish before the state's Finalise on success paths and requires every executed success exit to pass the message application."
+	r.Explanation = "Structural clause of C05: (A-1) validateTrx's error is tested before runTrx; (A-2) nothing reachable from validateTrx mutates a ledger item, calls an overlay mutator of a live ledger or writes controller state (exception: the stake limiter's running totals, whose update is the last validation step); (A-3) in every execution function (the four controllers' ExecuteTrx and what they call, runTrx, postRunTrx) no error exit is reachable while an effect is in force: effects are item mutators, overlay mutators, item field stores and calls of functions containing them; an effect is retracted on the callee's own error edge when the callee is itself fail-clean (computed recursively), on dead error edges of always-nil callees, and by the registered compensations (refund of the same amount, CancelSet of the object); two exceptions carry a structural side condition that is checked; (A-4) in EVMCtrler.ExecuteTrx every failure exit after the snapshot passes RevertToSnapshot(that snapshot) then Finish, the success exit passes Finish once and no revert; (A-5) the fee is added to the block only on the success branch, and a delivery whose execution succeeded takes that branch. ExecuteSync is among the A-3 functions; A-4 also orders Finish before the state's Finalise on success paths and requires every executed success exit to pass the message application."
 	r.NotCovered = "that the compensations restore values exactly (the idiom is recognised, not evaluated); EVM-internal reverts; NewTrxContext's creation of an empty receiver account before validation (changes no queried value)."
 
 	a1(w, r)
@@ -1166,7 +1166,10 @@ func a5(w *World, r *Report) {
 	f4(w, rep)
 	n := 0
 	for _, o := range rep.Obs {
-		if strings.Contains(o.Key, "deliverTxSync:AddFee:only-on-success") {
+		// the fee is added only on success; and a delivery whose execution succeeded takes
+		// the success branch (its effects are in force: reporting it as failed would be a
+		// failed transaction with effects)
+		if strings.Contains(o.Key, "deliverTxSync:AddFee:only-on-success") || strings.Contains(o.Key, "deliverTxSync:AddFee:on-every-success") {
 			o.Rule = "A-5"
 			o.Key = "A-5:" + strings.TrimPrefix(o.Key, "F-4:")
 			r.Obs = append(r.Obs, o)
